@@ -65,6 +65,10 @@ def handleTable (ws : List String) : Option String :=
         | some bs => "some " ++ hexOrDash bs
         | none => "none")
     | _, _ => some "bad-op"
+  | ["spec.tblmatched", table, text] =>
+    match parseSpecTable table, textOfHex text with
+    | some tb, some t => some (hexOfText (String.ofList (Spec.Table.matched tb t.toList.length t.toList)))
+    | _, _ => some "bad-op"
   | _ => none
 
 end A816.Ops
